@@ -9,14 +9,16 @@ COQ_PROOF_DEPS = ["C17/Proofs.v", "C17/IcaList.v"]
 COQ_OBLIG = ["C17/Property.v", "Gen/C17Oblig.v"]
 CASES_HEADER = "Require Import Nib.C17.AnteFacts Nib.C17.MsgTree Nib.C17.Model Nib.C17.Spec Nib.C17.Check Nib.C17.Current."
 CASE_TYPE = "case"
-MISMATCH_FN = "mismatch current_cfg"
+MISMATCH_FN = "mismatch current_cfg current_genesis_cfg"
 VIOLATES_FN = "violates"
 RULE = ("case = history of 2-12 transactions on a fresh chain, each delivered in its own block through "
         "BeginBlock/DeliverTx/EndBlock/Commit after advancing the clock (5 s .. 25 h); a transaction carries 1-3 message "
         "trees: MsgCreateValidator / MsgEditValidator (rates around the cap: 0.25, 0.25+1e-18, 0.9, ...; high max rates) "
         "/ MsgGrant / MsgSend at the top level or under 1-4 wrappers (authz MsgExec with self- or grant-based authority, "
         "the reflect.wasm contract dispatching Stargate messages, gov MsgSubmitProposal), plus EVM / unknown extension "
-        "options; non-trivial = a staking message with rate > 0.25 sits under at least one wrapper, or an accepted "
+        "options; about 1 case in 7 starts from a genesis carrying 1-3 gentxs (delivered by x/genutil from InitChain at block "
+        "height 0: staking messages bare / under exec / behind harmless messages, around and above the cap) on a chain "
+        "without pre-set validator; non-trivial = a staking message with rate > 0.25 sits under at least one wrapper, or an accepted "
         "staking message sits under a wrapper, or an EditValidator is delivered >= 24 h after the last change; "
         "distinct = distinct input")
 ASSUMPTIONS = [
@@ -61,17 +63,32 @@ def _tree(n):
 EXT = {"": "NoExt", "evm": "EvmExt", "other": "OtherExt"}
 
 
+def _txterm(tx):
+    return "{| t_dt := (%d)%%Z; t_ext := %s; t_signer := %d; t_msgs := [%s] |}" % (
+        tx.get("dt", 0), EXT[tx.get("ext", "")], tx["signer"], "; ".join("(%s)" % _tree(m) for m in tx["msgs"]))
+
+
+def _vals(vs):
+    return "; ".join("{| o_id := %d; o_rate := %s; o_max := %s; o_chg := %s |}" % (v["id"], _z(v["rate"]), _z(v["max"]), _z(v["chg"]))
+                     for v in vs)
+
+
 def to_coq_case(rec):
     items = []
-    for tx, ob in zip(rec["input"]["txs"], rec["obs"]):
-        t = "{| t_dt := (%d)%%Z; t_ext := %s; t_signer := %d; t_msgs := [%s] |}" % (
-            tx["dt"], EXT[tx.get("ext", "")], tx["signer"], "; ".join("(%s)" % _tree(m) for m in tx["msgs"]))
-        vs = "; ".join("{| o_id := %d; o_rate := %s; o_max := %s; o_chg := %s |}" % (v["id"], _z(v["rate"]), _z(v["max"]), _z(v["chg"]))
-                       for v in ob["vals"])
-        o = "{| o_ok := %s; o_vals := [%s]; o_allmax := %s |}" % ("true" if ob["ok"] else "false", vs, _z(ob["allmax"]))
-        items.append("(%s, %s)" % (t, o))
-    return "{| c_min_rate := %s; c_cap_linked := %s; c_txs := [%s] |}" % (
-        _z(rec["input"].get("min_rate") or "0"), _z(rec.get("cap", "0")), ";\n     ".join(items))
+    for tx, ob in zip(rec["input"]["txs"], rec["obs"] or []):
+        o = "{| o_ok := %s; o_vals := [%s]; o_allmax := %s |}" % ("true" if ob["ok"] else "false", _vals(ob["vals"]), _z(ob["allmax"]))
+        items.append("(%s, %s)" % (_txterm(tx), o))
+    g = rec.get("genesis")
+    gentxs = rec["input"].get("gentxs") or []
+    if g is None:
+        gen, setup = "None", 0
+    else:
+        gen = "(Some {| g_started := %s; g_vals := [%s]; g_allmax := %s |})" % (
+            "true" if g["started"] else "false", _vals(g["vals"]), _z(g["allmax"]))
+        setup = g.get("setup_dt", 0)
+    return ("{| c_min_rate := %s; c_cap_linked := %s; c_gentxs := [%s]; c_genesis := %s; c_setup_dt := (%d)%%Z; c_txs := [%s] |}" % (
+        _z(rec["input"].get("min_rate") or "0"), _z(rec.get("cap", "0")), "; ".join(_txterm(t) for t in gentxs), gen, setup,
+        ";\n     ".join(items)))
 
 
 CAP = 250000000000000000
@@ -86,7 +103,14 @@ def _walk(n, depth, wrappers, out):
 
 def _staking(rec):
     res = []
-    for tx, ob in zip(rec["input"]["txs"], rec["obs"]):
+    g = rec.get("genesis")
+    if g is not None:
+        for tx in rec["input"].get("gentxs") or []:
+            leaves = []
+            for m in tx["msgs"]:
+                _walk(m, 0, ["gentx"], leaves)
+            res.append((dict(tx, dt=0), {"ok": g["started"], "class": "genesis-started" if g["started"] else "genesis-failed"}, leaves))
+    for tx, ob in zip(rec["input"]["txs"], rec["obs"] or []):
         leaves = []
         for m in tx["msgs"]:
             _walk(m, 0, [], leaves)
@@ -100,7 +124,7 @@ def nontrivial(rec):
         elapsed += tx["dt"]
         for n, d, ws in leaves:
             r = n.get("rate")
-            if d >= 1 and r is not None and int(r) > CAP:
+            if (d >= 1 or ws) and r is not None and int(r) > CAP:
                 return True
             if d >= 1 and ob["ok"]:
                 return True
@@ -110,7 +134,7 @@ def nontrivial(rec):
 
 
 def classify(rec):
-    ks = ["txs=%d" % len(rec["input"]["txs"])]
+    ks = ["txs=%d" % len(rec["input"]["txs"]), "gentxs=%d" % len(rec["input"].get("gentxs") or [])]
     for tx, ob, leaves in _staking(rec):
         ks.append("tx:" + ob.get("class", "?"))
         if tx.get("ext"):
@@ -136,7 +160,9 @@ def signature(rec):
         for n, d, ws in leaves:
             r = n.get("rate")
             if r is not None and int(r) > CAP:
-                if not ws:
+                if "gentx" in ws:
+                    path = "gentx"
+                elif not ws:
                     path = "top-level"
                 elif "wasm" in ws:
                     path = "wasm-stargate"
@@ -167,6 +193,20 @@ def _drop_nodes(n):
 
 def shrink_candidates(inp):
     out = []
+    gts = inp.get("gentxs") or []
+    if gts:
+        if inp["txs"]:
+            out.append(dict(inp, txs=[]))
+        for i in range(len(gts)):
+            if len(gts) > 1:
+                out.append(dict(inp, gentxs=gts[:i] + gts[i + 1:]))
+        for i, tx in enumerate(gts):
+            ms = tx["msgs"]
+            for j in range(len(ms)):
+                if len(ms) > 1:
+                    out.append(dict(inp, gentxs=gts[:i] + [dict(tx, msgs=ms[:j] + ms[j + 1:])] + gts[i + 1:]))
+                for v in _drop_nodes(ms[j]):
+                    out.append(dict(inp, gentxs=gts[:i] + [dict(tx, msgs=ms[:j] + [v] + ms[j + 1:])] + gts[i + 1:]))
     txs = inp["txs"]
     for i in range(len(txs)):
         if len(txs) > 1:
